@@ -8,3 +8,8 @@ package ui
 //@   trusted printing or logging a message has no effect on the modelled state and does not panic (the Outputable implementations only format their own data)
 //@   requires o != nil
 //@   modifies nothing
+//@
+//@ func NewOutput
+//@   props C14 C08 C06
+//@   modifies nothing
+//@   ensures result != nil && fresh(result)
